@@ -67,6 +67,16 @@ private def fui (name : String) : Option (St → Nat → Nat → Nat → St) :=
   | _ => none
 
 def handle : Handler
+  | "as4_mpq_inv", [.num m, .num a0, .num v0, .num a1, .num v1, .num a2, .num v2, .num a3, .num v3] => do
+      if v3 ≤ 0 then none else
+      let dn ← mk? a0 v0; let dd ← mk? a1 v1; let sn ← mk? a2 v2; let sd ← mk? a3 v3
+      let s : St := ⟨fun i => if i = 0 then dn else if i = 1 then dd else if i = 2 then sn else sd, true⟩
+      -- mode 0: dest = (0, 1), src = (2, 3); mode 1: dest == src = (2, 3)
+      let ids : Option (Nat × Nat) := match m with | 0 => some (0, 1) | 1 => some (2, 3) | _ => none
+      let (N, D) ← ids
+      match mpq_inv s N D 2 3 with
+      | none => some [.err "div0"]
+      | some s' => if !s'.ok then some [.err "oob"] else some (outW s' N ++ outW s' D)
   | "as4_set_d", [.num wa, .num wv, .num d] => do
       let w ← mk? wa wv
       if !(0 ≤ d && d < 2 ^ 64) then none else
